@@ -480,11 +480,11 @@ def gen_knobs(rng, spec):
         s0, j0 = spec["s0"], spec["j0"]
     s = rng.choice([s0, s0, s0, _r3(s0 * 0.5), _r3(s0 * 1.5), _r3(s0 * 2)])
     j = rng.choice([j0, j0, j0, _r3(j0 * 0.5), _r3(j0 * 1.5), _r3(j0 * 2)])
-    grid = rng.choice([0.5, 1.0, 1.0, 2.0, 5.0, 10.0, 2.5, 0.7, 3.0])
+    grid = rng.choice([0.5, 1.0, 1.0, 2.0, 5.0, 10.0, 2.5, 0.7, 3.0, 1.0, 2.0, 0.1, 0.3, 1.0 / 3.0, 500.0, 0.25])
     return {
         "thresholds": [s, j],
         "grid_mm": grid,
-        "curvature": rng.choice([0.5, 1.0, 1.5, 2.25, -0.75, 0.0, 1e-3, 40.0]),
+        "curvature": rng.choice([0.5, 1.0, 1.5, 2.25, -0.75, 0.0, 1e-3, 40.0, -0.0, 1e6, -40.0, 1e-9, 0.1 + 0.2]),
         "verbosity": rng.choice([0, 0, 0, 1, 2, 3, 4]),
         "logfile": rng.random() < 0.2,
         "reference": rng.choice([None, None, None, "on_grid"]),
